@@ -51,6 +51,8 @@ def setCfg (st : St) (kv : String) : Option St :=
       if v == "max" then some { st with cfg := { c with dbRevSeekTs := .max } }
       else if v == "zero" then some { st with cfg := { c with dbRevSeekTs := .zero } } else none
     | "dbit.skipsDeleted" => do let b ← boolOfString? v; pure { st with cfg := { c with dbSkipsDeleted := b } }
+    | "concat.fwdOp" => do let o ← CmpOp.ofString? v; pure { st with cfg := { c with concatFwdOp := o } }
+    | "concat.revOp" => do let o ← CmpOp.ofString? v; pure { st with cfg := { c with concatRevOp := o } }
     | "sst.seekFallsThrough" => do let b ← boolOfString? v; pure { st with cfg := { c with sstSeekFallsThrough := b } }
     | "txnit.lowerOp" => do let o ← CmpOp.ofString? v; pure { st with cfg := { c with txnLowerOp := o } }
     | "txnit.upperOp" => do let o ← CmpOp.ofString? v; pure { st with cfg := { c with txnUpperOp := o } }
@@ -124,6 +126,16 @@ def step (st : St) (toks : List String) : St × String :=
       let db' := st.db.flush st.vt
       let r := if t.isEmpty then "ok:-" else "ok:" ++ ",".intercalate ((cutBySize st.vt t).map fun b => toString b.length)
       ({ st with db := db' }, r ++ "\t*")
+  | ["sink"] =>
+    match st.db.l0 with
+    | [_] =>
+      let db' := st.db.sink st.cfg st.vt
+      let desc := db'.lvl.map fun T =>
+        match T.flatten.head?, T.flatten.getLast? with
+        | some a, some b => s!"{a.key.toHex}@{verStr a.ver}..{b.key.toHex}@{verStr b.ver}#{T.flatten.length}"
+        | _, _ => "empty"
+      ({ st with db := db' }, "ok:" ++ ";".intercalate desc ++ "\t*")
+    | _ => (st, "skip\tskip")
   | "txn.iter" :: args =>
     match bytesArg args "pfx", bytesArg args "lo", bytesArg args "hi", parseWrites? ((kv? args "pend").getD "-"),
           natOf? ((kv? args "since").getD "0") with
